@@ -11,12 +11,28 @@ import (
 	"math"
 	"regexp"
 	"strings"
+	"time"
+
+	"github.com/google/mtail/internal/metrics"
 
 	"github.com/prometheus/client_golang/prometheus"
 	dto "github.com/prometheus/client_model/go"
 )
 
+// c12AwaitQueued waits until the writer is queued on the metric's lock (a
+// pending writer makes TryRLock fail) or has got through.
+func c12AwaitQueued(m *metrics.Metric) {
+	for i := 0; i < 200; i++ {
+		if !m.TryRLock() {
+			return
+		}
+		m.RUnlock()
+		time.Sleep(time.Millisecond)
+	}
+}
+
 func verifNewConstMetric(desc *prometheus.Desc, vt prometheus.ValueType, v float64, lv ...string) (prometheus.Metric, error) {
+	c12WriterPoint()
 	if vFault("NewConstMetric") {
 		return nil, errors.New("injected: prometheus refused the sample")
 	}
@@ -28,6 +44,7 @@ func verifNewConstMetric(desc *prometheus.Desc, vt prometheus.ValueType, v float
 }
 
 func verifNewConstHistogram(desc *prometheus.Desc, count uint64, sum float64, buckets map[float64]uint64, lv ...string) (prometheus.Metric, error) {
+	c12WriterPoint()
 	if vFault("NewConstMetric") {
 		return nil, errors.New("injected: prometheus refused the sample")
 	}
